@@ -177,6 +177,143 @@ pub fn run(seed: u64, n: usize, driver: &str, out: &str) -> serde_json::Value {
             samples.push(json!({"bytes_hex": hex(&b), "utf8_strict": real_line(&decode(&b, "utf-8", DecoderTrap::Strict, false, false))}));
         }
     }
+    // 2b. UTF-16LE/BE: the helper against Model/Utf.v in every mode; the raw decoder fed in pieces (its two-field
+    //     state); the encoders and str::chars against the models; Model/Codecs.v by encoding name
+    let cps = |t: &str| -> String { if t.is_empty() { "".to_string() } else { t.chars().map(|c| (c as u32).to_string()).collect::<Vec<_>>().join(",") } };
+    let units: [u16; 14] = [0xD800, 0xDBFF, 0xDC00, 0xDFFF, 0x0041, 0xFEFF, 0xFFFE, 0xFFFF, 0x0000, 0xD7FF, 0xE000, 0x4F60, 0x00E9, 0x000A];
+    let mut u16_cases = 0u64;
+    for i in 0..n {
+        let big = rng.chance(1, 2);
+        let (enc, bo) = if big { ("utf-16be", "BE") } else { ("utf-16le", "LE") };
+        let mut b: Vec<u8> = match rng.below(4) {
+            0 => {
+                let t = rng.pick(&corpus.texts);
+                let t: String = t.chars().skip(rng.below(300)).take(rng.range(0, 40)).collect();
+                encode_text(&t, enc).unwrap_or_default()
+            }
+            1 | 2 => {
+                let mut v = vec![];
+                for _ in 0..rng.range(0, 9) {
+                    let u = *rng.pick(&units);
+                    if big { v.extend_from_slice(&u.to_be_bytes()) } else { v.extend_from_slice(&u.to_le_bytes()) }
+                }
+                v
+            }
+            _ => (0..rng.range(0, 12)).map(|_| rng.below(256) as u8).collect(),
+        };
+        if rng.chance(1, 3) && !b.is_empty() {
+            let p = rng.below(b.len());
+            b[p] = rng.below(256) as u8;
+        }
+        if rng.chance(1, 3) && !b.is_empty() {
+            let p = rng.below(b.len() + 1);
+            b.truncate(p);
+        }
+        if rng.chance(1, 6) {
+            b.insert(0, rng.below(256) as u8);
+        }
+        u16_cases += 1;
+        for (mode, trap, test, chunk) in [("STRICT", DecoderTrap::Strict, false, false), ("TEST", DecoderTrap::Strict, true, false),
+            ("CHUNK", DecoderTrap::Strict, false, true), ("IGNORE", DecoderTrap::Ignore, false, false), ("REPLACE", DecoderTrap::Replace, false, false)] {
+            evals += 1;
+            let real = match decode(&b, enc, trap, test, chunk) { Ok(t) => format!("R OK {}", cps(&t)), Err(_) => "R ERR".to_string() };
+            let model = drv.decode_model(&format!("U16 {} {} {}", bo, mode, hex(&b)));
+            let model_c = if model.starts_with("R ERR") { "R ERR".to_string() } else { model.clone() };
+            if real != model_c {
+                diffs.push(json!({"what": "utf-16 decoder model (helper)", "encoding": enc, "mode": mode, "bytes_hex": hex(&b), "real": real, "model": model}));
+            }
+        }
+        // the raw decoder fed in 1..4 pieces cut at random positions
+        {
+            let mut cuts: Vec<usize> = (0..rng.below(4)).map(|_| rng.below(b.len() + 1)).collect();
+            cuts.sort();
+            let mut pieces: Vec<&[u8]> = vec![];
+            let mut prev = 0;
+            for c in cuts { pieces.push(&b[prev..c]); prev = c; }
+            pieces.push(&b[prev..]);
+            let codec = encoding_from_whatwg_label(enc).unwrap();
+            let mut d = codec.raw_decoder();
+            let show = |s: &str| -> String { s.chars().map(|c| (c as u32).to_string()).collect::<Vec<_>>().join(".") };
+            let show_err = |e: &Option<encoding::types::CodecError>| -> String { match e {
+                None => "-".to_string(),
+                Some(e) => format!("{}@{}", if e.cause.contains("invalid") { "invalid" } else if e.cause.contains("incomplete") { "incomplete" } else { "other" }, e.upto),
+            } };
+            let mut parts = vec![];
+            for pc in &pieces {
+                let mut out = String::new();
+                let (off, err) = d.raw_feed(pc, &mut out);
+                parts.push(format!("{}:{}:{}", off, show(&out), show_err(&err)));
+            }
+            let mut out = String::new();
+            let err = d.raw_finish(&mut out);
+            let real = format!("R {};F:{}:{}", parts.join(";"), show(&out), show_err(&err));
+            evals += 1;
+            let feeds = pieces.iter().map(|p| if p.is_empty() { "-".to_string() } else { hex(p) }).collect::<Vec<_>>().join(",");
+            let model = drv.decode_model(&format!("U16RAW {} {}", bo, feeds));
+            if real != model {
+                diffs.push(json!({"what": "utf-16 raw decoder model (stateful feeds)", "encoding": enc, "feeds": feeds, "real": real, "model": model}));
+            }
+        }
+        // encoders and str::chars
+        if i % 2 == 0 {
+            let t: String = if rng.chance(1, 2) {
+                let a = rng.pick(&corpus.texts);
+                a.chars().skip(rng.below(400)).take(rng.range(0, 30)).collect()
+            } else {
+                let pool: Vec<char> = "a\u{7f}\u{80}\u{7ff}\u{800}\u{fff}\u{1000}\u{cfff}\u{d000}\u{d7ff}\u{e000}\u{feff}\u{ffff}\u{10000}\u{3ffff}\u{40000}\u{fffff}\u{100000}\u{10ffff}".chars().collect();
+                (0..rng.range(0, 8)).map(|_| *rng.pick(&pool)).collect()
+            };
+            let c = if t.is_empty() { "-".to_string() } else { cps(&t) };
+            evals += 3;
+            let m8 = drv.decode_model(&format!("UENC 8 {}", c));
+            if m8 != format!("R {}", hex(t.as_bytes())) {
+                diffs.push(json!({"what": "utf-8 encoder model (String contents)", "text_hex": hex(t.as_bytes()), "model": m8}));
+            }
+            let le: Vec<u8> = t.encode_utf16().flat_map(|u| u.to_le_bytes()).collect();
+            let be: Vec<u8> = t.encode_utf16().flat_map(|u| u.to_be_bytes()).collect();
+            for (form, e, std_bytes) in [("16LE", "utf-16le", &le), ("16BE", "utf-16be", &be)] {
+                let lib = charset_normalizer_rs::utils::encode(&t, e, encoding::EncoderTrap::Strict).unwrap_or_default();
+                let m = drv.decode_model(&format!("UENC {} {}", form, c));
+                if m != format!("R {}", hex(&lib)) || &lib != std_bytes {
+                    diffs.push(json!({"what": "utf-16 encoder model", "form": form, "text_hex": hex(t.as_bytes()), "model": m, "library": hex(&lib), "std": hex(std_bytes)}));
+                }
+            }
+            let mc = drv.decode_model(&format!("U8CHARS {}", hex(t.as_bytes())));
+            if mc != format!("R {}", cps(&t)) {
+                diffs.push(json!({"what": "str::chars model (utf8_chars)", "text_hex": hex(t.as_bytes()), "model": mc}));
+            }
+        }
+    }
+    // 2c. Model/Codecs.v by encoding NAME (what DETECTFULL decodes with): every supported name that is modelled
+    let mut by_name = 0u64;
+    let mut unmodelled: Vec<String> = vec![];
+    for e in &sup {
+        for k in 0..(n / 30).max(6) {
+            let b = gen_bytes(&mut rng, &corpus, e);
+            for (mode, test, chunk) in [("STRICT", false, false), ("TEST", true, false), ("CHUNK", false, true)] {
+                let model = drv.decode_model(&format!("CODEC {} {} {}", hex(e.as_bytes()), mode, hex(&b)));
+                if model == "R UNMODELLED" {
+                    if k == 0 && mode == "STRICT" { unmodelled.push(e.clone()); }
+                    continue;
+                }
+                evals += 1;
+                by_name += 1;
+                let real = match decode(&b, e, DecoderTrap::Strict, test, chunk) {
+                    Ok(t) => if test { "R OK".to_string() } else { format!("R OK {}", cps(&t)) },
+                    Err(_) => "R ERR".to_string(),
+                };
+                if real != model {
+                    diffs.push(json!({"what": "codec model by encoding name (Model/Codecs.v)", "encoding": e, "mode": mode, "bytes_hex": hex(&b), "real": real, "model": model}));
+                }
+            }
+        }
+    }
+    // every encoding outside the CJK list must be modelled
+    for e in &unmodelled {
+        if !["euc-jp", "euc-kr", "iso-2022-jp", "gbk", "gb18030", "hz", "big5", "shift_jis"].contains(&e.as_str()) {
+            diffs.push(json!({"what": "a non-CJK encoding is not covered by Model/Codecs.v", "encoding": e}));
+        }
+    }
     // 3. the window property: every window [i,j) of a valid UTF-8 text that contains a complete character
     //    decodes (chunk mode) to exactly the complete characters inside it
     let mut windows = 0u64;
@@ -214,7 +351,7 @@ pub fn run(seed: u64, n: usize, driver: &str, out: &str) -> serde_json::Value {
         }
     }
     let rep = json!({"level": "decode", "seed": seed, "evaluations": evals, "distinct_nontrivial": nontrivial, "windows": windows,
-        "single_byte_tables": tables.len(), "disagreements": diffs, "violations": violations, "samples": samples});
+        "single_byte_tables": tables.len(), "utf16_cases": u16_cases, "codec_by_name_evaluations": by_name, "unmodelled_codecs": unmodelled, "disagreements": diffs, "violations": violations, "samples": samples});
     std::fs::write(out, serde_json::to_string_pretty(&rep).unwrap()).expect("write");
     rep
 }
